@@ -313,39 +313,8 @@ func runScenario(tw *tracefmt.Writer, sc scen, id int, rng *rand.Rand, st *stats
 	var splits []int
 	for i, x := range ws {
 		region := plain[x.off:x.to]
-		outer, np, ok := getVarInt(region)
-		rec := tracefmt.Rec{"ev": "write", "i": i, "len": len(x.p), "sum": sum(x.p), "werr": werrs[i],
-			"span": len(region), "outer": outer, "claimed": -1, "cprefix": []int{},
-			"z": map[string]any{"ok": false, "n": 0, "trail": 0}}
-		if !ok {
-			np = min(5, len(region))
-		}
-		rec["prefix"] = tracefmt.Bytes(region[:np])
-		body := region[np:]
-		nc := 0
-		same := false
-		if x.thr < 0 {
-			rec["rest"] = len(body)
-			same = bytes.Equal(body, x.p)
-		} else {
-			claimed, n, ok := getVarInt(body)
-			if !ok {
-				n = min(5, len(body))
-			}
-			nc = n
-			rec["claimed"] = claimed
-			rec["cprefix"] = tracefmt.Bytes(body[:nc])
-			rest := body[nc:]
-			rec["rest"] = len(rest)
-			if claimed == 0 {
-				same = bytes.Equal(rest, x.p)
-			} else if claimed > 0 {
-				z := inflateFacts(rest, x.p)
-				rec["z"] = map[string]any{"ok": z.ok, "n": z.n, "trail": z.trail}
-				same = z.same
-			}
-		}
-		rec["same"] = same
+		rec, np, nc := frameFacts(region, x.p, x.thr, werrs[i])
+		rec["i"] = i
 		tw.Emit(rec)
 		st.Writes++
 		if sc.Late && i == 0 {
@@ -443,6 +412,151 @@ func runScenario(tw *tracefmt.Writer, sc scen, id int, rng *rand.Rand, st *stats
 	}
 }
 
+// frameFacts: what the independent parser finds in the wire region of one write.
+func frameFacts(region, p []byte, thr int, werr bool) (rec tracefmt.Rec, np, nc int) {
+	outer, np, ok := getVarInt(region)
+	rec = tracefmt.Rec{"ev": "write", "len": len(p), "sum": sum(p), "werr": werr,
+		"span": len(region), "outer": outer, "claimed": -1, "cprefix": []int{},
+		"z": map[string]any{"ok": false, "n": 0, "trail": 0}}
+	if !ok {
+		np = min(5, len(region))
+	}
+	rec["prefix"] = tracefmt.Bytes(region[:np])
+	body := region[np:]
+	same := false
+	if thr < 0 {
+		rec["rest"] = len(body)
+		same = bytes.Equal(body, p)
+	} else {
+		claimed, n, ok := getVarInt(body)
+		if !ok {
+			n = min(5, len(body))
+		}
+		nc = n
+		rec["claimed"] = claimed
+		rec["cprefix"] = tracefmt.Bytes(body[:nc])
+		rest := body[nc:]
+		rec["rest"] = len(rest)
+		if claimed == 0 {
+			same = bytes.Equal(rest, p)
+		} else if claimed > 0 {
+			z := inflateFacts(rest, p)
+			rec["z"] = map[string]any{"ok": z.ok, "n": z.n, "trail": z.trail}
+			same = z.same
+		}
+	}
+	rec["same"] = same
+	return
+}
+
+// longRun: one writer/reader pair carrying n small compressed packets (state that builds up
+// over a connection's life: buffer pools, zlib writer/reader re-use, cipher streams).  Runs of
+// byte-identical observations are logged once with a repeat count "rep".
+func longRun(tw *tracefmt.Writer, n int, rng *rand.Rand, st *stats) {
+	const thr = 64
+	secret := make([]byte, 16)
+	rng.Read(secret)
+	tw.Emit(tracefmt.Rec{"ev": "reset", "dir": "cb", "thr": thr, "level": -1, "enc": true, "late": false,
+		"chunk": "random", "content": "zeros", "size": 180, "mode": "longrun", "n": n})
+	st.Scenarios++
+	st.ByMode["longrun"]++
+	st.Classes["longrun/enc=true/late=false/random"]++
+	out := &sink{}
+	w := netmc.NewWriter(out, proto.ClientBound, time.Second, -1, logr.Discard())
+	if w.EnableEncryption(secret) != nil || w.SetCompressionThreshold(thr) != nil {
+		tw.Emit(tracefmt.Rec{"ev": "end", "err": "setup"})
+		return
+	}
+	tw.Emit(tracefmt.Rec{"ev": "setenc"})
+	tw.Emit(tracefmt.Rec{"ev": "setcomp", "thr": thr})
+	small := payload(rng, 180, "zeros")
+	type wr struct {
+		p       []byte
+		off, to int
+		werr    bool
+	}
+	ws := make([]wr, 0, n)
+	for i := 0; i < n; i++ {
+		p := small
+		if i%1000 == 999 {
+			p = payload(rng, 3000, "random") // now and then a buffer has to grow
+		}
+		off := out.buf.Len()
+		_, err := w.Write(p)
+		if err == nil {
+			err = w.Flush()
+		}
+		ws = append(ws, wr{p, off, out.buf.Len(), err != nil})
+	}
+	wire := out.buf.Bytes()
+	plain := cfb8Decrypt(secret, wire)
+	st.WireBytes += len(wire)
+	var prev tracefmt.Rec
+	var prevRegion, prevP []byte
+	flush := func() {
+		if prev != nil {
+			tw.Emit(prev)
+		}
+	}
+	for _, x := range ws {
+		region := plain[x.off:x.to]
+		st.Writes++
+		if prev != nil && !x.werr && bytes.Equal(region, prevRegion) && bytes.Equal(x.p, prevP) {
+			prev["rep"] = prev["rep"].(int) + 1
+			continue
+		}
+		flush()
+		prev, _, _ = frameFacts(region, x.p, thr, x.werr)
+		prev["rep"] = 1
+		prevRegion, prevP = region, x.p
+	}
+	flush()
+	var splits []int
+	for p := 0; p < len(wire); {
+		p += 1 + rng.Intn(5000)
+		splits = append(splits, p)
+	}
+	src := &source{wire: wire, splits: splits}
+	r := netmc.NewReader(src, proto.ClientBound, time.Second, logr.Discard())
+	r.SetState(emptyRegistry)
+	_ = r.EnableEncryption(secret)
+	_ = r.SetCompressionThreshold(thr)
+	var last tracefmt.Rec
+	reads, endErr := 0, "noend"
+	for guard := 0; guard < n+3; guard++ {
+		ctx, err := r.ReadPacket()
+		if errors.Is(err, netmc.ErrReadPacketRetry) {
+			continue
+		}
+		if err != nil {
+			endErr = "error"
+			if errors.Is(err, io.EOF) && !errors.Is(err, io.ErrUnexpectedEOF) {
+				endErr = "eof"
+			}
+			break
+		}
+		reads++
+		st.Reads++
+		sm := sum(ctx.Payload)
+		if last != nil && last["len"] == len(ctx.Payload) && last["sum"] == sm {
+			last["rep"] = last["rep"].(int) + 1
+			continue
+		}
+		if last != nil {
+			tw.Emit(last)
+		}
+		last = tracefmt.Rec{"ev": "read", "len": len(ctx.Payload), "sum": sm, "rep": 1}
+	}
+	if last != nil {
+		tw.Emit(last)
+	}
+	if endErr != "eof" {
+		st.EndErrors++
+	}
+	st.ConnReads += src.reads
+	tw.Emit(tracefmt.Rec{"ev": "end", "err": endErr, "reads": reads})
+}
+
 func sizes(seq [][]byte) []int {
 	var out []int
 	for _, p := range seq {
@@ -468,6 +582,9 @@ func TestScenarios(t *testing.T) {
 	rng := rand.New(rand.NewSource(tracefmt.Seed()))
 	for i, sc := range scens {
 		runScenario(tw, sc, i, rng, st)
+	}
+	if n := tracefmt.EnvInt("VERIF_LONG", 45000); n > 0 {
+		longRun(tw, n, rng, st)
 	}
 	if err := tw.Close(); err != nil {
 		t.Fatal(err)
